@@ -1208,7 +1208,10 @@ class GroupCoordinator(BaseCoordinator):
                     if error_type is Errors.GroupLoadInProgressError:
                         # just retry
                         raise error
-                    elif error_type is Errors.NotCoordinatorForGroupError:
+                    elif error_type in (
+                        Errors.NotCoordinatorForGroupError,
+                        Errors.GroupCoordinatorNotAvailableError,
+                    ):
                         # re-discover the coordinator and retry
                         self.coordinator_dead()
                         raise error
